@@ -20,6 +20,8 @@ typedef int8_t s8; typedef int16_t s16; typedef int32_t s32; typedef int64_t s64
 
 typedef struct verif_opaque { char c; } verif_opaque;
 typedef struct verif_fn { bool set; } verif_fn;          /* std::function<...>: only "is a target installed" */
+typedef struct verif_string { const char *p; u64 len; } verif_string;   /* std::string: contents + length */
+typedef struct verif_optional { bool has; } verif_optional;
 typedef u16 verif_bitset16;                                /* std::bitset<16> */
 
 /* outcome classes */
